@@ -1842,11 +1842,15 @@ class Pipeline:
             if inputs is None
             else {pipeline.node_mapping[n] for n in inputs}
         )
-        output_nodes: set[PipeFunc] = (
-            set(pipeline.leaf_nodes)
-            if output_names is None
-            else {pipeline.node_mapping[n] for n in output_names}  # type: ignore[misc]
-        )
+        output_nodes: set[PipeFunc]
+        if output_names is None:
+            # All leaf nodes that can be reached from the inputs
+            reachable: set[Any] = set()
+            for input_node in input_nodes:
+                reachable.update(nx.descendants(pipeline.graph, input_node))
+            output_nodes = {node for node in pipeline.leaf_nodes if node in reachable}
+        else:
+            output_nodes = {pipeline.node_mapping[n] for n in output_names}  # type: ignore[misc]
         between = _find_nodes_between(pipeline.graph, input_nodes, output_nodes)
         drop = [f for f in pipeline.functions if f not in between]
         for f in drop:
@@ -2110,14 +2114,18 @@ def _find_nodes_between(
     input_nodes: set[Any],
     output_nodes: set[Any],
 ) -> set[Any]:
-    reachable_from_inputs = set()
-    for input_node in input_nodes:
-        reachable_from_inputs.update(nx.descendants(graph, input_node))
-    reachable_to_outputs = set()
-    for output_node in output_nodes:
-        reachable_to_outputs.update(nx.ancestors(graph, output_node))
-    reachable_to_outputs.update(output_nodes)
-    return reachable_from_inputs & reachable_to_outputs
+    # Walk backwards from the outputs and stop at the provided inputs. Everything the
+    # outputs depend on is needed, also functions that do not depend on any of the inputs
+    # (e.g., functions without parameters or with only defaults).
+    between: set[Any] = set()
+    stack = list(output_nodes)
+    while stack:
+        node = stack.pop()
+        if node in between or node in input_nodes:
+            continue
+        between.add(node)
+        stack.extend(graph.predecessors(node))
+    return between
 
 
 @dataclass(frozen=True, slots=True)
